@@ -86,8 +86,8 @@ func main() {
 		}
 		return
 	}
-	fmt.Printf("loaded %d packages (%d module, %d production scope), %d module functions; load %.1fs ssa %.1fs\n",
-		len(w.All), len(w.ModAll), len(w.Mod), w.NFuncs, w.LoadS, w.SSAS)
+	fmt.Printf("loaded %d packages (%d module, %d production scope), %d module functions, %d captured locals promoted; load %.1fs ssa %.1fs\n",
+		len(w.All), len(w.ModAll), len(w.Mod), w.NFuncs, w.Promoted, w.LoadS, w.SSAS)
 	r := NewReport(*prop, *tier, w)
 	func() {
 		defer func() {
